@@ -350,7 +350,8 @@ theorem Copy.iter_stop (E : Enc σ) (c c' : Copy σ) (o : Out (Except Err Nat)) 
 def Copy.todo (c : Copy σ) : Nat := c.src.data.length + c.availableIn
 def Copy.eofFlag (c : Copy σ) : Nat := if c.eof then 0 else 1
 
-theorem Copy.iter_cont_measure (E : Enc σ) (rank : σ → Nat) (hp : EncProgress E rank)
+theorem Copy.iter_cont_measure (E : Enc σ) (ops : Op → Prop) (rank : σ → Nat) (hp : EncProgress E ops rank)
+    (hops : ops .process ∧ ops .finish)
     (c c' : Copy σ) (h : c.WF) (hi : Copy.iter E c = .cont c') :
     c'.WF ∧ (c'.todo < c.todo ∨ (c'.todo = c.todo ∧ c'.eofFlag < c.eofFlag) ∨
       (c'.todo = c.todo ∧ c'.eofFlag = c.eofFlag ∧ rank c'.enc < rank c.enc)) := by
@@ -371,13 +372,15 @@ theorem Copy.iter_cont_measure (E : Enc σ) (rank : σ → Nat) (hp : EncProgres
     have hdem : Demanded E st.1 c.refill.nextOp c.refill.window := by
       unfold Copy.nextOp
       split
-      · exact Or.inr (Or.inl ⟨rfl, s3⟩)
+      · next hz0 =>
+        refine Or.inr (Or.inl ⟨rfl, ?_, s3⟩)
+        exact List.eq_nil_of_length_eq_zero (by rw [hwl]; exact hz0)
       · next hne =>
         refine Or.inl ⟨rfl, ?_⟩
         intro hnil; rw [hnil] at hwl; simp at hwl; omega
     have hlt : rank c'.enc < rank c.enc := by
       rw [k2, ← f1, hst]
-      apply hp.stall c.refill.enc c.refill.nextOp c.refill.window _ hcap
+      apply hp.stall c.refill.enc c.refill.nextOp c.refill.window _ (by unfold Copy.nextOp; split; exact hops.2; exact hops.1) hcap
       · rw [← hst]; exact s2
       · rw [← hst]; exact hc
       · rw [← hst]; exact hdem
@@ -391,7 +394,8 @@ theorem Copy.iter_cont_measure (E : Enc σ) (rank : σ → Nat) (hp : EncProgres
 
 /-- `copy_terminates`: the loop of the copy function ends for every script of both wrapped
 streams (zero-length writes included: they end it with an error) -/
-theorem Copy.loop_terminates (E : Enc σ) (rank : σ → Nat) (hp : EncProgress E rank) :
+theorem Copy.loop_terminates (E : Enc σ) (ops : Op → Prop) (rank : σ → Nat) (hp : EncProgress E ops rank)
+    (hops : ops .process ∧ ops .finish) :
     ∀ (T F R : Nat) (c : Copy σ), c.WF → c.todo = T → c.eofFlag = F → rank c.enc = R →
       ∃ N, ∀ fuel, N ≤ fuel → (Copy.loop E fuel c).2 ≠ .livelock := by
   intro T
@@ -413,7 +417,7 @@ theorem Copy.loop_terminates (E : Enc σ) (rank : σ → Nat) (hp : EncProgress 
           obtain ⟨st, _, _, hne, _⟩ := Copy.iter_stop E c c' o hwf hi
           exact hne
         | cont c' =>
-          obtain ⟨wf', hm⟩ := Copy.iter_cont_measure E rank hp c c' hwf hi
+          obtain ⟨wf', hm⟩ := Copy.iter_cont_measure E ops rank hp hops c c' hwf hi
           have hnext : ∃ N, ∀ fuel, N ≤ fuel → (Copy.loop E fuel c').2 ≠ .livelock := by
             rcases hm with h1 | ⟨h1, h2⟩ | ⟨h1, h2, h3⟩
             · exact ihT c'.todo (by omega) c'.eofFlag (rank c'.enc) c' wf' rfl rfl rfl
